@@ -9,6 +9,7 @@
   excluded laxness and a proved witness of that laxness otherwise).  `none` = the call raises ValueError.
 -/
 import Basyx.Lemmas.Lex
+import Basyx.Model.LexTyped
 import Basyx.Spec.XsdTypes
 import Basyx.Gen.XsdNames
 namespace Basyx.Lex
@@ -325,6 +326,101 @@ theorem c06_decimal_lax_witness :
     validDecimal "1e3".toList = false ∧ parseDec "1e3".toList = some (.fin ⟨false, 1, 3⟩) ∧
     validDecimal "NaN".toList = false ∧ parseDec "NaN".toList = some (.nan false false) ∧
     validDecimal (reprDecR (.nan false false)) = false := by decide
+
+/-! ## 9. all types at once: the dispatch of `xsd_repr` / `from_xsd` (`Model/LexTyped.lean`) -/
+
+/-- the value space of the announced type (XML Schema part 2, as far as the Python classes can represent it) -/
+def TV.inSpace : TV → Prop
+  | .int τ v => ∃ r, Spec.intRange τ = some r ∧ r.contains v = true
+  | .bool _ => True
+  | .str τ s => τ = .string ∨ τ = .anyURI ∨ (τ = .normalizedString ∧ validNormalized s = true)
+  | .date v => v.ok ∧ v.tz.inXsd
+  | .time v => v.ok ∧ v.tz.inXsd
+  | .dateTime v => v.ok ∧ v.tz.inXsd
+  | .gYear v => v.ok ∧ v.tz.inXsd
+  | .gMonth v => v.ok ∧ v.tz.inXsd
+  | .gDay v => v.ok ∧ v.tz.inXsd
+  | .gYearMonth v => v.ok ∧ v.tz.inXsd
+  | .gMonthDay v => v.ok ∧ v.tz.inXsd
+  | .hex bs => bs.ok
+  | .b64 bs => bs.ok
+  | .dur d => d.normal ∧ (d.nonneg ∨ d.nonpos)
+  | .dec r => ∃ v, r = .fin v
+  | .flt τ v => (τ = .float ∨ τ = .double) ∧ (v = .nan ∨ v = .inf ∨ v = .ninf)
+
+/-- the value read back: identical, except that a Decimal with a positive exponent comes back multiplied out
+    (`DecV.plain`, the same number — `c06_decimal_plain_same_number`) -/
+def TV.readBack : TV → TV
+  | .dec (.fin v) => .dec (.fin v.plain)
+  | v => v
+
+/-- **Value and type are kept, for every type and every value at once**: `xsd_repr` succeeds, its result lies in the
+    lexical space of the announced type, the announced name is the type's own `xs:` name, and `from_xsd` with that type
+    gives the value back.  Partial only in that finite floats are CPython's (`FloatV.finite` is outside `inSpace`). -/
+theorem c06_typed_roundtrip_partial (v : TV) (h : v.inSpace) :
+    ∃ s, reprTV v = some s ∧ validTV v.ty s = true ∧ parseTV genRange v.ty s = some v.readBack ∧
+      announced v.ty.pyName = some ("xs:" ++ Spec.xsName v.ty) := by
+  have hn := c06_names_own v.ty
+  cases v with
+  | int τ i =>
+    obtain ⟨r, hr, hc⟩ := h
+    obtain ⟨hp, hv⟩ := c06_int_roundtrip τ r hr i hc
+    refine ⟨intRepr i, rfl, ?_, ?_, hn⟩
+    · cases τ <;> simp [Spec.intRange] at hr <;> simpa [validTV, TV.ty] using hv
+    · cases τ <;> simp [Spec.intRange] at hr <;> simp [parseTV, TV.ty, TV.readBack, hp]
+  | bool b =>
+    obtain ⟨hp, hv⟩ := c06_bool_roundtrip b
+    exact ⟨reprBool b, rfl, by simpa [validTV, TV.ty] using hv, by simp [parseTV, TV.ty, TV.readBack, hp], hn⟩
+  | str τ s =>
+    rcases h with h | h | ⟨h, hv⟩ <;> subst h
+    · exact ⟨s, rfl, rfl, rfl, hn⟩
+    · exact ⟨s, rfl, rfl, rfl, hn⟩
+    · refine ⟨s, rfl, by simpa [validTV, TV.ty] using hv, ?_, hn⟩
+      simp [parseTV, TV.ty, TV.readBack, (c06_normalized s).1 hv]
+  | date d =>
+    obtain ⟨hp, hv⟩ := c06_date_roundtrip d h.1 h.2
+    exact ⟨_, rfl, by simpa [validTV, TV.ty] using hv, by simp [parseTV, TV.ty, TV.readBack, hp], hn⟩
+  | time d =>
+    obtain ⟨hp, hv⟩ := c06_time_roundtrip d h.1 h.2
+    exact ⟨_, rfl, by simpa [validTV, TV.ty] using hv, by simp [parseTV, TV.ty, TV.readBack, hp], hn⟩
+  | dateTime d =>
+    obtain ⟨hp, hv⟩ := c06_dateTime_roundtrip d h.1 h.2
+    exact ⟨_, rfl, by simpa [validTV, TV.ty] using hv, by simp [parseTV, TV.ty, TV.readBack, hp], hn⟩
+  | gYear d =>
+    obtain ⟨s, hs, hp, hv⟩ := c06_gYear_roundtrip d h.1 h.2
+    exact ⟨s, hs, by simpa [validTV, TV.ty] using hv, by simp [parseTV, TV.ty, TV.readBack, hp], hn⟩
+  | gMonth d =>
+    obtain ⟨hp, hv⟩ := c06_gMonth_roundtrip d h.1 h.2
+    exact ⟨_, rfl, by simpa [validTV, TV.ty] using hv, by simp [parseTV, TV.ty, TV.readBack, hp], hn⟩
+  | gDay d =>
+    obtain ⟨hp, hv⟩ := c06_gDay_roundtrip d h.1 h.2
+    exact ⟨_, rfl, by simpa [validTV, TV.ty] using hv, by simp [parseTV, TV.ty, TV.readBack, hp], hn⟩
+  | gYearMonth d =>
+    obtain ⟨s, hs, hp, hv⟩ := c06_gYearMonth_roundtrip d h.1 h.2
+    exact ⟨s, hs, by simpa [validTV, TV.ty] using hv, by simp [parseTV, TV.ty, TV.readBack, hp], hn⟩
+  | gMonthDay d =>
+    obtain ⟨hp, hv⟩ := c06_gMonthDay_roundtrip d h.1 h.2
+    exact ⟨_, rfl, by simpa [validTV, TV.ty] using hv, by simp [parseTV, TV.ty, TV.readBack, hp], hn⟩
+  | hex bs =>
+    obtain ⟨hp, hv⟩ := c06_hex_roundtrip bs h
+    exact ⟨_, rfl, by simpa [validTV, TV.ty] using hv, by simp [parseTV, TV.ty, TV.readBack, hp], hn⟩
+  | b64 bs =>
+    obtain ⟨hp, hv⟩ := c06_base64_roundtrip bs h
+    exact ⟨_, rfl, by simpa [validTV, TV.ty] using hv, by simp [parseTV, TV.ty, TV.readBack, hp], hn⟩
+  | dur d =>
+    obtain ⟨s, hs, hp, hv⟩ := c06_duration_roundtrip d h.1 h.2
+    exact ⟨s, hs, by simpa [validTV, TV.ty] using hv, by simp [parseTV, TV.ty, TV.readBack, hp], hn⟩
+  | dec r =>
+    obtain ⟨d, rfl⟩ := h
+    obtain ⟨hp, hv⟩ := c06_decimal_roundtrip d
+    exact ⟨_, rfl, by simpa [validTV, TV.ty, reprDecR] using hv, by simp [parseTV, TV.ty, TV.readBack, reprDecR, hp], hn⟩
+  | flt τ f =>
+    obtain ⟨hτ, hf⟩ := h
+    have hm : f ∈ [FloatV.nan, FloatV.inf, FloatV.ninf] := by rcases hf with rfl | rfl | rfl <;> simp
+    obtain ⟨hp, hv⟩ := c06_float_specials f hm
+    rcases hτ with rfl | rfl
+    · exact ⟨_, rfl, by simpa [validTV, TV.ty] using hv, by simp [parseTV, TV.ty, TV.readBack, hp], hn⟩
+    · exact ⟨_, rfl, by simpa [validTV, TV.ty] using hv, by simp [parseTV, TV.ty, TV.readBack, hp], hn⟩
 
 /-! ## non-vacuity: the hypotheses are satisfiable, the functions compute -/
 
